@@ -7,13 +7,15 @@ open Lean Frappy.Drive Frappy.Activate Frappy.Spec.C08
 
 def parseEntry (j : Json) : R Entry := do
   match (← arr j) with
-  | [.str "v", n] => return .val (← n.getInt?)
-  | [.str "e", n] => return .err (← n.getNat?)
+  | [.str "v", n, t] => return .val (← n.getInt?) (← t.getNat?)
+  | [.str "e", n, t] => return .err (← n.getNat?) (← t.getNat?)
+  | [.str "v", n] => return .val (← n.getInt?) 0
+  | [.str "e", n] => return .err (← n.getNat?) 0
   | _ => throw s!"bad entry {j.compress}"
 
 def entryJson : Entry → Json
-  | .val v => jarr [Json.str "v", jint v]
-  | .err k => jarr [Json.str "e", jnat k]
+  | .val v t => jarr [Json.str "v", jint v, jnat t]
+  | .err k t => jarr [Json.str "e", jnat k, jnat t]
 
 def mkMod (l : Activate.Name) : R Mod :=
   if h : colon ∉ l then pure ⟨l, h⟩ else throw s!"module name with a colon: {String.ofList l}"
@@ -40,10 +42,26 @@ def scopeJson : Scope → Json
   | .all => Json.null
   | s => nameJson s.key
 
+/-- the specifier of a `read` / `change`: `modulename, pname = specifier, 'value'` (`'target'` for a change), or
+`specifier.split(':', 1)` -/
+def parseRwSpec (w : Bool) (spec : Activate.Name) : R (Mod × Par) := do
+  if spec.contains colon then
+    let m ← mkMod (spec.takeWhile (fun ch => ch != colon))
+    return (m, (spec.dropWhile (fun ch => ch != colon)).drop 1)
+  else
+    return ((← mkMod spec), (if w then "target" else "value").toList)
+
 def parseReq (j : Json) : R Req := do
   match (← arr j) with
+  | [.str "read", s, e] => do
+    let (m, p) ← parseRwSpec false (← s.getStr?).toList
+    return .rw false m p (← parseEntry e)
+  | [.str "change", s, e] => do
+    let (m, p) ← parseRwSpec true (← s.getStr?).toList
+    return .rw true m p (← parseEntry e)
   | [.str "activate", s] => return .activate (← parseScope s)
   | [.str "deactivate", s] => return .deactivate (← parseScope s)
+  | [.str "bad", a, s] => return .malformed (← a.getStr?).toList (← s.getStr?).toList
   | [.str "ident"] => return .ident
   | [.str "disconnect"] => return .disconnect
   | _ => throw s!"bad request {j.compress}"
@@ -53,6 +71,8 @@ def reqJson : Req → Json
   | .deactivate s => jarr [Json.str "deactivate", scopeJson s]
   | .ident => jarr [Json.str "ident"]
   | .disconnect => jarr [Json.str "disconnect"]
+  | .rw w m p e => jarr [Json.str (if w then "change" else "read"), nameJson (pkey m p), entryJson e]
+  | .malformed a s => jarr [Json.str "bad", nameJson a, nameJson s]
 
 def parseObs (j : Json) : R Obs := do
   match (← arr j) with
@@ -82,6 +102,7 @@ def parseLk (j : Json) : R Lk := do
   | .str "sub" => return .sub
   | _ => match (← arr j) with
     | [.str "upd", m] => return .upd (← parseMod m)
+    | [.str "acc", m] => return .acc (← parseMod m)
     | _ => throw s!"bad lock {j.compress}"
 
 def parseLabel (j : Json) : R Label := do
@@ -117,23 +138,35 @@ def parseSetup (j : Json) : R Setup := do
   let broken ← match j.getObjVal? "logFails" with
     | .ok x => (do return (← (← x.getArr?).toList.mapM (·.getNat?)))
     | .error _ => pure []
-  let omitL ← match j.getObjVal? "omitSame" with
+  let omitL ← match j.getObjVal? "omitWithin" with
     | .ok x => (do (← arr x).mapM (fun y => do
         match (← arr y) with
-        | [m, p] => return ((← parseMod m), (← p.getStr?).toList)
-        | _ => throw "bad omitSame item"))
+        | [m, p, w] => return (((← parseMod m), (← p.getStr?).toList), (← w.getNat?))
+        | _ => throw "bad omitWithin item"))
     | .error _ => pure []
-  let cfg : Cfg := ⟨mods.map (·.1), lookupD mods [], conns, fun c => broken.contains c, fun m p => omitL.contains (m, p)⟩
-  return ⟨cfg, fun m p => lookupD cache (.err 0) (m, p), mods.flatMap (fun x => x.2.map (fun p => (x.1, p)))⟩
+  -- the parameter table of ALL modules of the node: [module, exported name, readonly, constant, has a read_ function]
+  let parL ← match j.getObjVal? "params" with
+    | .ok x => (do (← arr x).mapM (fun y => do
+        match (← arr y) with
+        | [m, p, ro, co, hr] =>
+          return (((← parseMod m), (← p.getStr?).toList), (⟨(← ro.getBool?), (← co.getBool?), (← hr.getBool?)⟩ : ParInfo))
+        | _ => throw "bad params item"))
+    | .error _ => pure []
+  let look : Mod → Par → Option ParInfo := fun m p => (parL.find? (fun x => x.1 == (m, p))).map (·.2)
+  let cfg : Cfg := ⟨mods.map (·.1), lookupD mods [], conns, fun c => broken.contains c, fun m p => lookupD omitL 0 (m, p),
+    rwKindOf look⟩
+  return ⟨cfg, fun m p => lookupD cache (.err 0 0) (m, p), mods.flatMap (fun x => x.2.map (fun p => (x.1, p)))⟩
 
-/-- run the invisible actions of thread `t` -/
+/-- run the invisible actions of the scheduler's thread `t` (inside a call the acting model thread is the connection's
+updater slot: `actor`) -/
 def runInvisible (cfg : Cfg) : Nat → State → Tid → State
   | 0, σ, _ => σ
   | n + 1, σ, t =>
-    if finished σ t then σ else
-    match nextVisible σ t with
+    let a := actor σ t
+    if finished σ a then σ else
+    match nextVisible σ a with
     | some _ => σ
-    | none => match step cfg σ ⟨t, 0⟩ with
+    | none => match step cfg σ ⟨a, 0⟩ with
       | some σ' => runInvisible cfg n σ' t
       | none => σ
 
@@ -168,15 +201,15 @@ def replayEntry (cfg : Cfg) (keys : List Activate.Name) (rs : RS) (t : Tid) (l :
   let σ1 ← match rs.parked.find? (fun x => x.1 == t) with
     | some (_, l0) =>
       let arg := match l0 with | .send c => c | _ => 0
-      match step cfg rs.σ ⟨t, arg⟩ with
+      match step cfg rs.σ ⟨actor rs.σ t, arg⟩ with
       | some σ' => pure σ'
       | none => throw s!"model thread is blocked at {repr l0}"
     | none => pure rs.σ
   let σ2 := runInvisible cfg 64 σ1 t
-  if labelFits σ2 t l then
+  if labelFits σ2 (actor σ2 t) l then
     return ⟨σ2, (t, l) :: rs.parked.filter (fun x => !(x.1 == t)), rs.tabs ++ newTabs cfg keys rs.σ σ2⟩
   else
-    throw s!"model expects {repr (nextVisible σ2 t)}, implementation did {repr l}"
+    throw s!"model expects {repr (nextVisible σ2 (actor σ2 t))}, implementation did {repr l}"
 
 def replayAll (cfg : Cfg) (keys : List Activate.Name) : RS → Nat → List (Tid × Label) → RS × Option (Nat × String)
   | rs, _, [] => (rs, none)
@@ -190,8 +223,8 @@ def someEnabled (cfg : Cfg) (σ : State) (ts : List Tid) : Bool :=
   ts.any (fun t => match t with
     | .h c => (stepH cfg σ c).isSome
     | .u k => match σ.upc k with
-      | .sending _ _ _ (x :: _) => (stepU cfg σ k x).isSome
-      | _ => (stepU cfg σ k 0).isSome)
+      | .sending _ _ _ (x :: _) => (stepUG cfg σ k x).isSome
+      | _ => (stepUG cfg σ k 0).isSome)
 
 def bad (x : Option Nat) : Json := jopt jnat x
 
@@ -229,7 +262,7 @@ def handle (j : Json) : R Json := do
       | _ => σ) rs.σ
     let tabs := rs.tabs ++ newTabs su.cfg keys rs.σ σe
     let allDone := tids.all (finished σe)
-    let dead := !allDone && !someEnabled su.cfg σe tids
+    let dead := !allDone && !someEnabled su.cfg σe (tids ++ hs.map (fun x => Tid.u (own x.1)))
     return Json.mkObj [
       ("stuck", match stuck with | some (i, _) => jnat i | none => Json.null),
       ("why", match stuck with | some (_, e) => Json.str e | none => Json.null),
@@ -242,7 +275,17 @@ def handle (j : Json) : R Json := do
   | "judge" =>
     let su ← parseSetup j
     let tr ← (← fldArr j "trace").mapM parseObs
-    let q := quiescentBad su.cfg su.cache tr
+    -- the node's cache at the end of the run as the harness read it from the real objects (`final`); without it the cache
+    -- is reconstructed from the stores in the trace
+    let now ← match j.getObjVal? "final" with
+      | .ok x => (do
+          let l ← (← arr x).mapM (fun y => do
+            match (← arr y) with
+            | [m, p, e] => return (((← parseMod m), (← p.getStr?).toList), (← parseEntry e))
+            | _ => throw "bad final item")
+          pure (fun m p => lookupD l (cacheAfter su.cache tr m p) (m, p)))
+      | .error _ => pure (cacheAfter su.cache tr)
+    let q := quiescentBadNow su.cfg now tr
     return Json.mkObj [
       ("silent", bad (silentMon.firstBad silentMon.init 0 tr)),
       ("snapshot", bad ((snapMon su.cfg su.cache).firstBad (snapMon su.cfg su.cache).init 0 tr)),
